@@ -243,7 +243,13 @@ func c09(c *Ctx) {
 			}
 			n++
 			okP := false
-			if conv, ok := ast.Unparen(call.Args[1]).(*ast.CallExpr); ok && len(conv.Args) == 1 {
+			pa := ast.Unparen(call.Args[1])
+			if id, isID := pa.(*ast.Ident); isID { // the prefix held in a local that is defined once
+				if d := uniqueDef(info, fi.Node(), id); d != nil {
+					pa = ast.Unparen(d)
+				}
+			}
+			if conv, ok := pa.(*ast.CallExpr); ok && len(conv.Args) == 1 {
 				if s, ok := astx.ConstString(info, conv.Args[0]); ok && s == stablePrefix {
 					okP = true
 				}
@@ -253,7 +259,8 @@ func c09(c *Ctx) {
 			}
 		}
 		r.Check(n > 0 && okSame, "C09.L1", fi.Name(), "skips stable-store keys by the same prefix", c.P.Pos(fi.Node().Pos()), "bytes.HasPrefix(key, []byte(\""+stablePrefix+"\"))", "the scan does not skip stable-store keys (or uses a different prefix): a stable-store key is decoded as a log index")
-		// … and skips all of them: the prefix test is a loop condition
+		// … and skips all of them: the prefix test is a loop condition, or — judged on the graph — every key that is decoded
+		// and returned has failed the prefix test (`for ok := i.First(); ok; ok = i.Next() { if !HasPrefix(…) { return … } }`)
 		inLoop := 0
 		ast.Inspect(fi.Body(), func(nd ast.Node) bool {
 			if fs, ok := nd.(*ast.ForStmt); ok && fs.Cond != nil {
@@ -265,6 +272,40 @@ func c09(c *Ctx) {
 			}
 			return true
 		})
+		if inLoop != n && name != "ConvertToProto" {
+			g := c.Graph(fi)
+			nDec, allTested := 0, true
+			for _, rv := range g.Returns() {
+				rs := rv.Node.(*ast.ReturnStmt)
+				dec := false
+				for _, res := range rs.Results {
+					for _, call := range astx.Calls(res, false) {
+						if en, m := endianOf(info, call); m == "Uint64" && en != "" {
+							dec = true
+						}
+					}
+				}
+				if !dec {
+					continue
+				}
+				nDec++
+				tested := false
+				for _, f := range g.FactsAt(rv.ID) {
+					if hc, ok := ast.Unparen(f.Expr).(*ast.CallExpr); ok && f.Tag == nil && !f.Val {
+						if fn := astx.Callee(info, hc); fn != nil && isFunc(fn, "bytes", "HasPrefix") {
+							tested = true
+						}
+					}
+				}
+				if !tested {
+					allTested = false
+				}
+			}
+			// … and the loop goes on while the test holds: the step is reachable from the edge on which the prefix matched
+			if nDec > 0 && allTested {
+				inLoop = n
+			}
+		}
 		r.Check(inLoop == n && n > 0, "C09.L1", fi.Name(), "skips every stable-store key, not just one", c.P.Pos(fi.Node().Pos()), "prefix test is the condition of a for loop", "the scan tests the stable-store prefix once instead of looping: with two or more stable-store keys next to the log entries the second one is decoded as a log index")
 	}
 	// FirstIndex / LastIndex shape
@@ -303,6 +344,24 @@ func c09(c *Ctx) {
 							okE = true
 						}
 					}
+					// … or the flag that holds the result of the positioning calls is false (for ok := i.First(); ok; ok = i.Next())
+					if id, ok := ast.Unparen(f.Expr).(*ast.Ident); ok && !f.Val && f.Tag == nil {
+						ds := defsOf(info, fi.Node(), astx.Obj(info, id))
+						all := len(ds) > 0
+						for _, d := range ds {
+							dc, isCall := ast.Unparen(d).(*ast.CallExpr)
+							if d == nil || !isCall {
+								all = false
+								continue
+							}
+							if se, ok := ast.Unparen(dc.Fun).(*ast.SelectorExpr); !ok || (se.Sel.Name != spec.start && se.Sel.Name != spec.step) {
+								all = false
+							}
+						}
+						if all {
+							okE = true
+						}
+					}
 				}
 				r.Check(okE, "C09.L3", fi.Name(), "reports 0 only when no log entry exists", c.P.Pos(rs.Pos()), "on the exhausted-iterator edge", "index 0 is reported although the iterator found a log entry")
 			} else {
@@ -313,7 +372,7 @@ func c09(c *Ctx) {
 				}
 			}
 		}
-		r.Check(nZero >= 2 && nKey == 1, "C09.L3", fi.Name(), "returns the decoded key or 0", c.P.Pos(fi.Node().Pos()), "two empty exits + big-endian key", spec.name+" does not have the expected exits (0 for empty stores, the big-endian decoded key otherwise)")
+		r.Check(nZero >= 1 && nKey == 1, "C09.L3", fi.Name(), "returns the decoded key or 0", c.P.Pos(fi.Node().Pos()), "empty exit(s) + big-endian key", spec.name+" does not have the expected exits (0 for empty stores, the big-endian decoded key otherwise)")
 	}
 
 	// ---------- log methods: keys
